@@ -19,6 +19,10 @@ def run(ctx):
     M.m5_union_sub_objects(ctx)
     M.m4b_verification_levels(ctx)
     M.m6_product_enumeration(ctx)
+    # generation and counting of a union take the same entries of each child
+    from ..engines import recurrences as N
+    N.n1_union(ctx)
+    ctx.floor("N1", 2)
     ctx.floor("M6", 2)
     from ..engines import sizecheck as SC
     SC.s0_compositions(ctx)
